@@ -602,3 +602,14 @@ func init() {
 		What:   "real FindAction / forwardToProxyAction / matchEgressRule with three rules over concrete, overlapping ranges (a /24 inside a /16 + another /24, then optionally '*') and SYMBOLIC actions (DIRECT / REJECT / PROXY), every IPv4 destination, a user with or without the permissions: local destinations are refused BEFORE any rule is consulted (a DIRECT or PROXY rule does not re-open them); otherwise the action is that of the FIRST matching rule, DIRECT if none matches",
 		Bounds: "3 rules, IPv4 destinations, CIDR literals parsed natively", Outside: "domain-suffix rules; proxy selection among several proxy names"})
 }
+
+func init() {
+	for _, d := range registry["C01"] {
+		if d.ID == "H1.3" {
+			d2 := d
+			d2.ID = "H19.2"
+			d2.What = "per-session accounting: every byte a server session hands to its application in one Session.Read - from the left-over buffer, from queued segments, in any split - is added exactly once to the session user's upload counter (= C01 H1.3 with a recording metric)"
+			reg("C19", d2)
+		}
+	}
+}
